@@ -728,3 +728,130 @@ theorem leqK_sound : ∀ (kids : Kids) (tb : Nat) (rest k : List Nat), wfK kids 
 end
 
 end Snel.C08
+
+namespace Snel.C08
+open Flat
+
+/-! ### the chunked label search equals the plain first-index search -/
+
+theorem firstTrue_append (a b : List Bool) :
+    firstTrue (a ++ b) = match firstTrue a with
+      | some j => some j
+      | none => (firstTrue b).map (a.length + ·) := by
+  induction a with
+  | nil => simp [firstTrue]
+  | cons x xs ih =>
+    cases x with
+    | true => simp [firstTrue]
+    | false =>
+      simp only [List.cons_append, firstTrue, ih]
+      cases h1 : firstTrue xs with
+      | some j => simp
+      | none =>
+        cases h2 : firstTrue b with
+        | none => simp
+        | some k => simp; omega
+
+/-- With at least as many mask bits as lanes, `simd_first_ge` is "first index `i` with
+`slice[i] ≥ tb`" (from position `i` on). -/
+theorem simdFirstGe_spec (lanes maskBits : Nat) (hm : lanes ≤ maskBits) (slice : List Nat) (tb : Nat) :
+    ∀ (fuel i : Nat), slice.length - i < fuel →
+      simdFirstGe lanes maskBits slice tb fuel i
+        = (firstTrue ((slice.drop i).map fun v => decide (tb ≤ v))).map (i + ·) := by
+  intro fuel
+  induction fuel with
+  | zero => intro i h; omega
+  | succ fuel ih =>
+    intro i h
+    simp only [simdFirstGe]
+    by_cases hc : 0 < lanes ∧ i + lanes ≤ slice.length
+    · simp only [hc, and_self, if_true]
+      have hsplit : slice.drop i = (slice.drop i).take lanes ++ slice.drop (i + lanes) := by
+        rw [← List.drop_drop, List.take_append_drop]
+      have hlen : ((slice.drop i).take lanes).length = lanes := by
+        simp only [List.length_take, List.length_drop]; omega
+      have htake : (((slice.drop i).take lanes).map fun v => decide (tb ≤ v)).take maskBits
+          = ((slice.drop i).take lanes).map fun v => decide (tb ≤ v) := by
+        apply List.take_of_length_le; simp only [List.length_map, hlen]; exact hm
+      rw [htake]
+      conv => rhs; rw [hsplit, List.map_append, firstTrue_append]
+      cases hf : firstTrue (((slice.drop i).take lanes).map fun v => decide (tb ≤ v)) with
+      | some j => simp
+      | none =>
+        simp only
+        rw [ih (i + lanes) (by omega)]
+        simp only [List.length_map, hlen]
+        cases firstTrue ((slice.drop (i + lanes)).map fun v => decide (tb ≤ v)) with
+        | none => simp
+        | some k => simp; omega
+    · simp only [hc, if_false]
+
+theorem firstTrue_lt : ∀ (l : List Bool) (j : Nat), firstTrue l = some j → j < l.length
+  | [], _, h => by cases h
+  | true :: _, j, h => by simp [firstTrue] at h; subst h; simp
+  | false :: bs, j, h => by
+    simp only [firstTrue, Option.map_eq_some_iff] at h
+    obtain ⟨k, hk, rfl⟩ := h
+    have := firstTrue_lt bs k hk
+    simp; omega
+
+theorem lastTrue_lt (l : List Bool) (j : Nat) (h : lastTrue l = some j) : j < l.length := by
+  simp only [lastTrue, Option.map_eq_some_iff] at h
+  obtain ⟨k, hk, rfl⟩ := h
+  have := firstTrue_lt _ k hk
+  simp at this; omega
+
+theorem lastTrue_append (a b : List Bool) :
+    lastTrue (a ++ b) = match lastTrue b with
+      | some j => some (a.length + j)
+      | none => lastTrue a := by
+  simp only [lastTrue, List.reverse_append, firstTrue_append, List.length_append, List.length_reverse]
+  cases h1 : firstTrue b.reverse with
+  | some j =>
+    have := firstTrue_lt _ j h1
+    simp at this
+    simp; omega
+  | none =>
+    cases h2 : firstTrue a.reverse with
+    | none => simp
+    | some k =>
+      have := firstTrue_lt _ k h2
+      simp at this
+      simp; omega
+
+/-- With the mask exactly as wide as the chunk, `simd_last_le` is "last index `< i` with
+`slice[idx] ≤ tb`". -/
+theorem simdLastLe_spec (lanes : Nat) (slice : List Nat) (tb : Nat) :
+    ∀ (fuel i : Nat), i < fuel → i ≤ slice.length →
+      simdLastLe lanes lanes slice tb fuel i = lastTrue ((slice.take i).map fun v => decide (v ≤ tb)) := by
+  intro fuel
+  induction fuel with
+  | zero => intro i h; omega
+  | succ fuel ih =>
+    intro i h hi
+    simp only [simdLastLe]
+    by_cases hc : 0 < lanes ∧ lanes ≤ i
+    · simp only [hc, and_self, if_true]
+      have hi' : i = (i - lanes) + lanes := by omega
+      have hsplit : slice.take i = slice.take (i - lanes) ++ (slice.drop (i - lanes)).take lanes := by
+        conv => lhs; rw [hi', List.take_add]
+      have hlen : ((slice.drop (i - lanes)).take lanes).length = lanes := by
+        simp only [List.length_take, List.length_drop]; omega
+      have htake : (((slice.drop (i - lanes)).take lanes).map fun v => decide (v ≤ tb)).take lanes
+          = ((slice.drop (i - lanes)).take lanes).map fun v => decide (v ≤ tb) := by
+        apply List.take_of_length_le; simp only [List.length_map, hlen]; exact Nat.le_refl _
+      rw [htake]
+      conv => rhs; rw [hsplit, List.map_append, lastTrue_append]
+      cases hf : lastTrue (((slice.drop (i - lanes)).take lanes).map fun v => decide (v ≤ tb)) with
+      | some hb =>
+        have hlt := lastTrue_lt _ hb hf
+        simp only [List.length_map, hlen] at hlt
+        simp only [List.length_map, List.length_take, Option.some.injEq]
+        have : min (i - lanes) slice.length = i - lanes := by omega
+        rw [this]; omega
+      | none =>
+        simp only
+        exact ih (i - lanes) (by omega) (by omega)
+    · simp only [hc, if_false]
+
+end Snel.C08
